@@ -161,10 +161,13 @@ def make(targets, res: BuildResult, jobs=16, timeout=1500, clean=False):
     return True
 
 
-def scan_forbidden(res: BuildResult):
+def scan_forbidden(res: BuildResult, pid: str | None = None):
     for f in all_v_files():
-        if f.startswith("theories/Gen/") and False:
-            continue
+        if pid is not None and not f.startswith(("theories/Prelude/", "theories/Gen/", f"theories/{pid}/")):
+            # other properties' files are scanned by their own checks (and all of them by --setup)
+            deps = getattr(scan_forbidden, "extra", {}).get(pid, ())
+            if not f.startswith(tuple(f"theories/{d}/" for d in deps)) or not deps:
+                continue
         text = (COQ / f).read_text()
         # strip comments
         text = re.sub(r"\(\*.*?\*\)", "", text, flags=re.S)
